@@ -802,12 +802,72 @@ def gen_record_level(rec_cls, graph_cls):
     return out
 
 
+CANCEL_BLOCK_SRC = """
+if os.path.exists(cancel_lock_path):
+    cancel_lock = FileLock(cancel_lock_path)
+    try:
+        with cancel_lock.acquire(timeout=10):
+            dag.cancel_study()
+        os.remove(cancel_lock_path)
+    except Timeout:
+        pass
+"""
+
+CONDUCTOR_SRC = "maestrowf/conductor.py"
+
+
+def gen_monitor(repo):
+    """Conductor.monitor_study: the body of the polling loop, statement by statement."""
+    path = os.path.join(repo, CONDUCTOR_SRC)
+    try:
+        tree = ast.parse(open(path).read())
+    except (OSError, SyntaxError) as e:
+        raise NotTranslatable("%s: cannot parse: %s" % (CONDUCTOR_SRC, e))
+    fn = find_method(find_class(tree, "Conductor"), "monitor_study")
+    cx = Ctx([], [])
+    st = effective(cx, fn.body)
+    loops = [s for s in st if isinstance(s, ast.While)]
+    if len(loops) != 1 or st[-1] is loops[0] or st.index(loops[0]) != len(st) - 2:
+        bad(fn, "monitor_study is no longer `... while ...: ...; return completion_status`")
+    loop = loops[0]
+    if D(loop.test) != P("completion_status == StudyStatus.RUNNING") or loop.orelse:
+        bad(loop, "the monitor loop no longer runs exactly while the status is RUNNING")
+    expect(st[-1], "return completion_status", "monitor_study return")
+    pre = [D(s) for s in st[:-2]]
+    for need in ("dag = self._exec_dag", "completion_status = StudyStatus.RUNNING",
+                 "cancel_lock_path = make_safe_path(self.output_path, self._cancel_lock)"):
+        if P(need, "exec") not in pre:
+            bad(fn, "monitor_study prologue lost `%s`" % need)
+    lines = []
+    seen_exec = False
+    for s in effective(cx, loop.body):
+        s2 = strip_logging(s)
+        if D(s2) == P(CANCEL_BLOCK_SRC.strip() + "\n", "exec"):
+            lines.append("  let s := if cancel_req p then cancel_study_gen s else s in")
+        elif D(s2) == P("completion_status = dag.execute_ready_steps()", "exec"):
+            if seen_exec:
+                bad(s, "execute_ready_steps called twice per iteration")
+            seen_exec = True
+            lines.append("  let '(s, r) := execute_ready_steps_gen c g p s in")
+        elif D(s2) in (P("dag.pickle(pkl_path)", "exec"), P("dag.write_status(os.path.split(pkl_path)[0])", "exec")):
+            if not seen_exec:
+                bad(s, "snapshot / status written before the poll")
+        elif D(s2) == P("if completion_status == StudyStatus.RUNNING:\n    sleep(sleep_time)\n", "exec"):
+            pass
+        else:
+            bad(s, "unknown statement in the monitor loop: " + ast.unparse(s).split("\n")[0])
+    if not seen_exec:
+        bad(loop, "the monitor loop no longer calls execute_ready_steps")
+    return ["(* Conductor.monitor_study: one iteration of `while completion_status == StudyStatus.RUNNING` *)",
+            "Definition monitor_iter_gen (c : cfg) (g : graph) (p : pin) (s : st) : st * SStatus :="] + lines + ["  (s, r)"]
+
+
 HEADER2 = """(** Execution model, part 2b: the record-level methods of _StepRecord that the
     hand-written combinator [submit_attempts] (ExecBase.v) summarises.
     GENERATED by translate/tcode_exec.py from /repo's current source; the
     equality with [submit_attempts] is proved in Exec/ExecGen2Proofs.v, so a
     change of these methods breaks a proof obligation.  Do not edit by hand. *)
-From MWF Require Import Exec.ExecBase Exec.ExecSubmit.
+From MWF Require Import Exec.ExecBase Exec.ExecSubmit Exec.ExecGen.
 """
 
 
@@ -855,7 +915,7 @@ def generate(repo):
         d[-1] = d[-1] + "."
         text += "\n" + "\n".join(d) + "\n"
     text2 = HEADER2
-    for d in gen_record_level(rec_cls, graph_cls):
+    for d in gen_record_level(rec_cls, graph_cls) + [gen_monitor(repo)]:
         d = list(d)
         d[-1] = d[-1] + "."
         text2 += "\n" + "\n".join(d) + "\n"
